@@ -81,7 +81,7 @@ fn check_enc_accessors(eng: &str, codec: &str, k: usize, r: usize, bytes: usize,
 }
 
 /// decoder result accessors in the state where shards `og`/`rg` were given
-fn check_dec_accessors(g: &Group, og: &[usize], rg: &[usize]) -> Result<u64, V> {
+fn check_dec_accessors(g: &Group, og: &[usize], rg: &[usize], recovery_first: bool) -> Result<u64, V> {
     let kind = codec_kind(&g.codec);
     let given: BTreeSet<usize> = og.iter().copied().collect();
     let hi = spec_is_high(kind, g.k, g.r);
@@ -89,8 +89,14 @@ fn check_dec_accessors(g: &Group, og: &[usize], rg: &[usize]) -> Result<u64, V> 
     let res = guard(|| -> Result<u64, V> {
         with_engine!(g.eng.as_str(), E => {
             let mut dec = make_decoder::<E>(kind, g.k, g.r, g.bytes, soil_opt(g.soil)).map_err(|e| ("new Ok".to_string(), format!("{e:?}")))?;
-            for &i in og { dec.add_original(i, &g.originals[i]).map_err(|e| ("add Ok".to_string(), format!("{e:?}")))?; }
-            for &j in rg { dec.add_recovery(j, &g.recovery[j]).map_err(|e| ("add Ok".to_string(), format!("{e:?}")))?; }
+            if recovery_first {
+                // surplus sets: the originals arrive when enough shards are already in
+                for &j in rg.iter().rev() { dec.add_recovery(j, &g.recovery[j]).map_err(|e| ("add Ok".to_string(), format!("{e:?}")))?; }
+                for &i in og.iter().rev() { dec.add_original(i, &g.originals[i]).map_err(|e| ("add Ok".to_string(), format!("{e:?}")))?; }
+            } else {
+                for &i in og { dec.add_original(i, &g.originals[i]).map_err(|e| ("add Ok".to_string(), format!("{e:?}")))?; }
+                for &j in rg { dec.add_recovery(j, &g.recovery[j]).map_err(|e| ("add Ok".to_string(), format!("{e:?}")))?; }
+            }
             let result = dec.decode().map_err(|e| ("decode Ok".to_string(), format!("{e:?}")))?;
             let mut n = 0u64;
             for i in index_probe(g.k, obase) {
@@ -243,7 +249,7 @@ fn run_case(refm: &RefModel, kv: &Kv) -> Result<u64, V> {
         "encrounds" => check_enc_rounds(kv.str("eng"), kv.str("codec"), kv.usize("k"), kv.usize("r"), kv.usize("bytes"), kv.usize("rounds"), kv.u64("seed"), refm),
         "dec" => {
             let g = Group::from_kv(kv).map_err(|e| ("encode Ok".to_string(), e))?;
-            check_dec_accessors(&g, &parse_ranges(kv.str("og")), &parse_ranges(kv.str("rg")))
+            check_dec_accessors(&g, &parse_ranges(kv.str("og")), &parse_ranges(kv.str("rg")), kv.opt("order") == Some("rf"))
         }
         "bigrounds" => {
             let g = Group::from_kv(kv).map_err(|e| ("encode Ok".to_string(), e))?;
@@ -303,6 +309,9 @@ pub fn run(ctx: &Ctx, rep: &mut Report) {
                     for &mask in &sets {
                         let (og, rg) = split_mask(k, r, mask);
                         cases.push(base.clone().with("what", "dec").with("og", fmt_ranges(&og)).with("rg", fmt_ranges(&rg)));
+                        if og.len() + rg.len() > k && !og.is_empty() && !rg.is_empty() {
+                            cases.push(base.clone().with("what", "dec").with("og", fmt_ranges(&og)).with("rg", fmt_ranges(&rg)).with("order", "rf"));
+                        }
                     }
                     if k + r <= 4 {
                         for &a in &sets {
@@ -336,6 +345,9 @@ pub fn run(ctx: &Ctx, rep: &mut Report) {
                 let og: Vec<usize> = (0..k).filter(|i| *i != e).collect();
                 // all recovery shards given (full bitmap words), and only the last one
                 cases.push(base.clone().with("what", "dec").with("og", fmt_ranges(&og)).with("rg", fmt_ranges(&(0..r).collect::<Vec<_>>())));
+                if e % 4 == 1 {
+                    cases.push(base.clone().with("what", "dec").with("og", fmt_ranges(&og)).with("rg", fmt_ranges(&(0..r).collect::<Vec<_>>())).with("order", "rf"));
+                }
                 if e % 4 == 0 {
                     cases.push(base.clone().with("what", "dec").with("og", fmt_ranges(&og)).with("rg", format!("{}", r - 1)));
                 }
@@ -392,7 +404,7 @@ pub fn run(ctx: &Ctx, rep: &mut Report) {
                 rep.transitions += n;
             }
             Err((exp, obs)) => rep.violation(Violation {
-                key: format!("{}-{}-{}-k{}r{}-{}", kv.str("what"), kv.str("eng"), kv.str("codec"), kv.str("k"), kv.str("r"), kv.opt("sets").map(|s| s.to_string()).or(kv.opt("og").map(|o| format!("o{o}-r{}", kv.str("rg")))).or(kv.opt("bytes").map(|b| format!("b{b}"))).unwrap_or_default()),
+                key: format!("{}-{}-{}-k{}r{}-{}", kv.str("what"), kv.str("eng"), kv.str("codec"), kv.str("k"), kv.str("r"), kv.opt("sets").map(|s| s.to_string()).or(kv.opt("og").map(|o| format!("o{o}-r{}{}", kv.str("rg"), kv.opt("order").map(|x| format!("-{x}")).unwrap_or_default()))).or(kv.opt("bytes").map(|b| format!("b{b}"))).unwrap_or_default()),
                 case: kv.dump(),
                 expected: exp,
                 observed: obs,
